@@ -109,7 +109,7 @@ PROPS = {
             'NOT DECIDED: arbitrary nesting of lists/maps/arrays/described values (the element loop of the serde visitor chain), the derive-macro output for the typed protocol items (performatives, SASL bodies, delivery states, messages) -- serde visitor code is outside the Verus subset and too large for CBMC beyond small bounds',
             'compound header writers: the call-site fact count <= byte length (every element occupies at least one byte in this implementation) is assumed; the serde SerializeSeq/Map impls that call them are not under contract']),
     'C20': dict(
-        units=['FRAMEDEC', 'READERS', 'SERSTR', 'SERFIX'], kani=K_RT + K_READER, level='proof', title='Codec entry points agree (primitives; frame payload)',
+        units=['FRAMEDEC', 'READERS', 'SERSTR', 'SERFIX', 'SERHDR'], kani=K_RT + K_READER, level='proof', title='Codec entry points agree (primitives; frame payload)',
         assumptions=[
             'PROVED for every value: the fixed-width primitives listed in the obligations (Kani harnesses, loop-free / fully unwound over the full domain) and the compound header writers (Verus)',
             'BOUNDED ONLY (listed under bounded_obligations, never counted as proved): decoders on short byte strings, compound headers with hostile size/count bytes',
